@@ -5,6 +5,11 @@ HERE = os.path.dirname(os.path.dirname(os.path.abspath(__file__)))
 ALL = ['C%02d' % i for i in range(1, 21)]
 
 CHECKS = {
+ 'C03': dict(
+  text="Lean 4 theorem c03_noninterference, composing the codec model with the shell model: for EVERY byte string, every state of an IKE_SA that has keys (both roles, every request-outstanding state, REKEYED, successors), every key context and every handler instance — if the datagram's trailing checksum is not the peer-key MAC of the preceding octets, then after process_message the IKE_SA is exactly as before (state, both counters, CHILD_SAs, liveness timer, cache), no handler ran, no netlink request was issued, nothing escaped, and nothing is sent except possibly the stored response to a retransmitted IKE_SA_INIT request. It rests on c07_accept_requires_valid_checksum (whatever the parser accepts under a key context has a valid checksum or is IKE_SA_INIT) and on the shell's gate (cleartext IKE_SA_INIT after keys is dropped). Tied to the code by the codec correspondence (C05-C07) and the per-iteration shell replay. Oracle on the real code: forged cleartext of exchange types 34..38/99 x request/response x IDs around both windows, bit flips, truncations and extensions of authentic datagrams, reflections, messages under other keys, against every keyed IKE_SA reached by seeded histories, comparing the complete endpoint snapshot, kernel log and emitted datagrams.",
+  note="Trusted: Lean kernel; codec and shell models (validated by their correspondences); that a forged checksum does not match by accident is the hypothesis of the theorem itself (MAC separation is not assumed: the statement is about datagrams whose checksum is wrong). IKE_SA_INIT requests never reach an existing IKE_SA at the controller (a fresh responder IKE_SA answers them: C16/C18). One genuine defect (cleartext IKE_SA_INIT responses deleted keyed IKE_SAs) was repaired in /repo.",
+  technique="Lean 4 proof (composition of the parser theorem of C07 with the shell's gate, case analysis on the parse outcome) + correspondences + forgery oracle in every reached keyed state", ref="DESIGN.md §5 C03"),
+
  'C04': dict(
   text="Lean 4 theorems, parametric in the prf: prf+ as coded (loop shape, counter start and operand order extracted from crypto.py) equals the RFC 7296 2.13 stream T1|T2|... for every key, seed and output length up to 255 blocks and raises beyond; SKEYSEED and the seven SK_* (initial and rekey), CHILD KEYMAT with/without g^ir equal the RFC split for all nonces/SPIs/secrets and all size triples, where the split template, argument order and keymat-slot to Keyring-field data flow are regenerated from ikesa.py on every run; algorithm size tables, the five MODP primes (= RFC 3526 formula by kernel evaluation), generator, hex widths and the RFC 5903 curve table are compared by `decide`; MODP agreement (g^a)^b = (g^b)^a proved. Model validated differentially (Lean SHA-1/256/512 + HMAC driver vs the real Prf/IkeSa.generate_*_key_material/DiffieHellman).",
   note="Trusted: Lean kernel, extract/ (gen_crypto.py), the prf as an uninterpreted function of fixed output length in the theorems (HMAC itself is validated only differentially), OpenSSL for curve arithmetic. Primality of the MODP constants is not proved. piBits literal is recomputed only when mpmath is available.",
